@@ -29,7 +29,7 @@ CHECKS = {
     "C03": {"units": [rapid("freex", "TestC03Free", 1000, 600, 16), rapid("bcastx", "TestC03", 10000, 100000)]},
     "C04": {"units": [rapid("freex", "TestC04Free", 1000, 600, 16), rapid("routinex", "TestC04", 10000, 60000)]},
     "C05": {"units": [rapid("freex", "TestC05Free", 300, 300, 16), rapid("routinex", "TestC05", 8000, 60000)]},
-    "C12": {"units": [rapid("lifox", "TestC12Controlled", 6000, 10000), rapid("lifox", "TestC12Free", 1000, 1000, 16), rapid("lifox", "TestC12Burst", 400, 400, 8), rapid("lifox", "TestC12ListBurst", 400, 400, 8), rapid("lifox", "TestC12PopRace", 60, 300, few_shards=2)]},
+    "C12": {"units": [rapid("lifox", "TestC12Controlled", 6000, 10000), rapid("lifox", "TestC12Free", 1000, 1000, 16), rapid("lifox", "TestC12Burst", 400, 400, 8), rapid("lifox", "TestC12ListBurst", 400, 400, 8), rapid("lifox", "TestC12PopRace", 60, 300, few_shards=2), rapid("lifox", "TestC12ListEnds", 60, 300, few_shards=4)]},
     "C13": {"units": [rapid("racex", "TestC13", 2500, 5000, 16, race=True, shrinktime="5s")]},
     "C14": {"units": [rapid("routinex", "TestC14Backoff", 1500, 5000, 8), rapid("routinex", "TestC14", 10000, 60000)]},
     "C06": {"units": [rapid("keyedx", "TestC06Keyed", 6000, 40000), rapid("keyedx", "TestC06RefCount", 6000, 40000)]},
